@@ -30,6 +30,8 @@ pub(crate) struct IcmpForwarder {
 struct ReplyWaiter {
     original_peer: IpAddr,
     waker_tx: mpsc::Sender<(IpAddr, icmp_utils::Message)>,
+    /// The moment this request is forgotten
+    deadline: Instant,
 }
 
 #[derive(Default)]
@@ -246,6 +248,12 @@ impl IcmpForwarder {
             for deadline in expired {
                 if let Some(requests) = listeners.deadlines.remove(&deadline) {
                     for request in requests {
+                        // A later request with an equal key has replaced the waiter
+                        // and expires on its own deadline
+                        if matches!(listeners.reply_waiters.get(&request), Some(w) if w.deadline > deadline)
+                        {
+                            continue;
+                        }
                         #[cfg(trusttunnel_verif)]
                         crate::verif::icmp::hook_waiter_expire(
                             &request,
@@ -418,6 +426,7 @@ impl datagram_pipe::Sink for IcmpSink {
             ReplyWaiter {
                 original_peer: datagram.meta.peer,
                 waker_tx: self.tx.clone(),
+                deadline,
             },
         );
 
